@@ -23,6 +23,7 @@ type VStr struct {
 	HexOf  []Term // the string is the lower-case hex text of these bytes (kept structural; expanded only on demand)
 	IsHexOf bool
 	HexNum bool  // hex numeral atom: id = 2*numeric value + spelling bit
+	HexLead int  // hex numeral atom: zeros in front of the 64-digit zero-padded rendering (ndHexVal: 1, so the text starts with '0'; "%064x": 0)
 }
 type VStruct struct{ F []Value }
 type VArr struct{ E []Value }
